@@ -152,7 +152,7 @@ theorem modeOf_remap (o : C18.Origin) (mk : Bool) : (modeOf o mk).remap = o.rema
 /-- a method that does not remap never looks at the peptide → protein maps -/
 theorem ingest_noremap (inp : CliInput) (maps maps' : List C10.DMap) (cfg : C18.Cfg)
     (h : cfg.origin.remaps = false) : ingest inp maps cfg = ingest inp maps' cfg := by
-  unfold ingest C10.ingestFiles C10.pairUp
+  unfold ingest psmsOf C10.pairUp
   simp [modeOf_remap, h]
 
 theorem needsMap_false_remaps (cfg : C18.Cfg) (h : cfg.needsMap = false) : cfg.origin.remaps = false := by
@@ -265,8 +265,32 @@ theorem runMethod_table (inp : CliInput) (env : Env) (several : Bool) (name : St
 /-- the ingested list is a dict: every peptide once (C10 `keys_nodup_parse`) -/
 theorem ingest_distinct (inp : CliInput) (maps : List C10.DMap) (cfg : C18.Cfg) :
     Pipeline.distinctPeptides (ingest inp maps cfg) := by
-  unfold Pipeline.distinctPeptides ingest C10.ingestFiles C10.ingestPairs
+  unfold Pipeline.distinctPeptides ingest
   exact C10.keys_nodup_parse _
+
+theorem flatMap_zipIdx_fst {α β} (f : α → List β) : ∀ (l : List α) (n : Nat),
+    (l.zipIdx n).flatMap (fun pk => f pk.1) = l.flatMap f := by
+  intro l
+  induction l with
+  | nil => intro n; rfl
+  | cons a r ih => intro n; simp [List.zipIdx_cons, ih]
+
+/-- with one header style for all Percolator files (no per-file list) ingestion is `C10.ingestFiles` of the
+    method's mode on the method's files -/
+theorem ingest_uniform (inp : CliInput) (maps : List C10.DMap) (cfg : C18.Cfg) (h : inp.mokapotFiles = []) :
+    ingest inp maps cfg =
+      C10.ingestFiles doubleT (modeOf cfg.origin inp.mokapot) maps (filesFor inp cfg) := by
+  have hm : ∀ k, mokapotAt inp k = inp.mokapot := by intro k; simp [mokapotAt, h]
+  unfold ingest psmsOf C10.ingestFiles C10.ingestPairs C10.allPsms
+  simp only [hm]
+  have key := flatMap_zipIdx_fst
+    (fun p : C10.DMap × List C10.RawRow => C10.filePsms doubleT (modeOf cfg.origin inp.mokapot) p.1 p.2)
+    (C10.pairUp (modeOf cfg.origin inp.mokapot).remap maps (filesFor inp cfg)) 0
+  rw [key]
+
+/-- only Percolator methods look at the header style of a file -/
+theorem modeOf_mokapot (o : C18.Origin) (a b : Bool) (h : o.input ≠ .perc) : modeOf o a = modeOf o b := by
+  cases o <;> first | rfl | exact absurd rfl h
 
 /-! ### the written records, explicitly -/
 
@@ -324,7 +348,7 @@ theorem setup_spec (inp : CliInput) (env : Env) (cfgs : List C18.Cfg) (h : setup
     C19.getAnnotations inp.fasta inp.containsDecoys inp.geneLevel inp.useUniprot = .ok (env.ann, env.usePseudo) ∧
     C18.parseAll Generated.methods env.usePseudo (inp.methods.map C18.MethodRef.builtin) = .ok cfgs ∧
     (cfgs.any C18.Cfg.needsMap = true →
-      pepMaps inp.fasta inp.containsDecoys inp.geneLevel inp.useUniprot inp.dig env.usePseudo = .ok env.maps) ∧
+      pepMaps inp.fasta inp.pepMapFiles inp.containsDecoys inp.geneLevel inp.useUniprot inp.dig env.usePseudo = .ok env.maps) ∧
     (cfgs.any C18.Cfg.needsMap = false → env.maps = []) := by
   unfold setup at h
   cases ha : C19.getAnnotations inp.fasta inp.containsDecoys inp.geneLevel inp.useUniprot with
@@ -342,7 +366,7 @@ theorem setup_spec (inp : CliInput) (env : Env) (cfgs : List C18.Cfg) (h : setup
       | true =>
         rw [hn] at h
         simp only [if_true] at h
-        cases hm : pepMaps inp.fasta inp.containsDecoys inp.geneLevel inp.useUniprot inp.dig u with
+        cases hm : pepMaps inp.fasta inp.pepMapFiles inp.containsDecoys inp.geneLevel inp.useUniprot inp.dig u with
         | error e => rw [hm] at h; simp at h
         | ok maps =>
           rw [hm] at h
@@ -383,7 +407,7 @@ theorem setup_alone (inp : CliInput) (env : Env) (cfgs : List C18.Cfg) (h : setu
   | true =>
     have hany : cfgs.any C18.Cfg.needsMap = true := List.any_eq_true.mpr ⟨c', hmem, hnm⟩
     have hm := hm1 hany
-    have hm' : pepMaps (inp.alone i).fasta (inp.alone i).containsDecoys (inp.alone i).geneLevel
+    have hm' : pepMaps (inp.alone i).fasta (inp.alone i).pepMapFiles (inp.alone i).containsDecoys (inp.alone i).geneLevel
         (inp.alone i).useUniprot (inp.alone i).dig env.usePseudo = .ok env.maps := hm
     simp only [if_true]
     rw [hm']
@@ -458,6 +482,177 @@ theorem runMethod_ok (inp : CliInput) (env : Env) (several : Bool) (name : Strin
   rw [h3]
   simp only
   rw [renderTable_eq, h5]
+
+/-- a method whose pipeline call fails ends the run with that error -/
+theorem runMethod_pipeline_error (inp : CliInput) (env : Env) (several : Bool) (name : String) (cfg : C18.Cfg)
+    (rec : MethodRec) (pc : Pipeline.Config) (e : String)
+    (h1 : C18.runMethod (supplied inp) cfg = .ok ()) (h2 : C18.toPipelineConfig cfg = some pc)
+    (h3 : Pipeline.run pc (pipelineInput inp (ingest inp env.maps cfg) rec) = .error e) :
+    runMethod inp env several name cfg rec = .error e := by
+  unfold runMethod
+  rw [h1]
+  simp only
+  rw [h2]
+  simp only
+  rw [h3]
+
+/-! ### the missing-map refusal is raised only when neither `--fasta` nor `--peptide_protein_map` is given -/
+
+theorem c09ErrTag_ne_missing (e : C09.Err) : c09ErrTag e ≠ C18.Err.missingFasta.tag := by
+  cases e <;> decide
+
+theorem mapsFor_error_ne_missing (parse : C09.ParseId) (files : List (List Str)) :
+    ∀ (ps : List C09.Params) (e : String), mapsFor parse files ps = .error e → e ≠ C18.Err.missingFasta.tag := by
+  intro ps
+  induction ps with
+  | nil => intro e h; simp [mapsFor] at h
+  | cons p r ih =>
+    intro e h
+    unfold mapsFor at h
+    cases h1 : C09.fromParams parse files [p] with
+    | error e1 =>
+      rw [h1] at h
+      simp only [Except.error.injEq] at h
+      subst h
+      exact c09ErrTag_ne_missing e1
+    | ok res =>
+      rw [h1] at h
+      simp only at h
+      by_cases hne : res.2.isEmpty = true
+      · simp only [hne, Bool.not_true, Bool.false_eq_true, if_false] at h
+        cases h2 : mapsFor parse files r with
+        | error e2 =>
+          rw [h2] at h
+          simp only [Except.error.injEq] at h
+          subst h
+          exact ih _ h2
+        | ok ms => rw [h2] at h; simp at h
+      · simp only [hne, Bool.not_false, if_true, Except.error.injEq] at h
+        subst h
+        decide
+
+theorem readMaps_error_ne_missing :
+    ∀ (ts : List Str) (e : String), readMaps ts = .error e → e ≠ C18.Err.missingFasta.tag := by
+  intro ts
+  induction ts with
+  | nil => intro e h; simp [readMaps] at h
+  | cons t r ih =>
+    intro e h
+    unfold readMaps at h
+    cases h1 : C09.readMap t with
+    | error e1 =>
+      rw [h1] at h
+      simp only [Except.error.injEq] at h
+      subst h
+      exact c09ErrTag_ne_missing e1
+    | ok m =>
+      rw [h1] at h
+      simp only at h
+      cases h2 : readMaps r with
+      | error e2 =>
+        rw [h2] at h
+        simp only [Except.error.injEq] at h
+        subst h
+        exact ih _ h2
+      | ok ms => rw [h2] at h; simp at h
+
+/-- with `--fasta` or `--peptide_protein_map` given, whatever goes wrong while the maps are built is not the
+    missing-map refusal (it is an unequal-length digestion flag list or a reader error of the files' content) -/
+theorem pepMaps_error_ne_missing (fasta : Option (List (List Str))) (mapFiles : Option (List Str))
+    (cd gl uu : Bool) (dig : Digestion) (u : Bool) (e : String)
+    (hg : (hasFiles fasta || hasFiles mapFiles) = true)
+    (h : pepMaps fasta mapFiles cd gl uu dig u = .error e) : e ≠ C18.Err.missingFasta.tag := by
+  unfold pepMaps at h
+  cases hd : digestionParamsList dig cd with
+  | error e1 =>
+    rw [hd] at h
+    simp only [Except.error.injEq] at h
+    subst h
+    unfold digestionParamsList at hd
+    simp only at hd
+    split at hd
+    · simp only [Except.error.injEq] at hd
+      subst hd
+      decide
+    · cases hd
+  | ok ps =>
+    rw [hd] at h
+    simp only at h
+    match fasta, mapFiles, hg, h with
+    | some (f :: fs), _, _, h => exact mapsFor_error_ne_missing _ _ ps e h
+    | none, some (t :: ts), _, h => exact readMaps_error_ne_missing _ e h
+    | some [], some (t :: ts), _, h => exact readMaps_error_ne_missing _ e h
+    | none, none, hg, _ => simp [hasFiles] at hg
+    | none, some [], hg, _ => simp [hasFiles] at hg
+    | some [], none, hg, _ => simp [hasFiles] at hg
+    | some [], some [], hg, _ => simp [hasFiles] at hg
+
+/-- conversely, without either flag the maps are refused with the tool's `ValueError` (once the digestion flag
+    lists are of equal length) -/
+theorem pepMaps_missing (fasta : Option (List (List Str))) (mapFiles : Option (List Str))
+    (cd gl uu : Bool) (dig : Digestion) (u : Bool) (ps : List C09.Params)
+    (hd : digestionParamsList dig cd = .ok ps)
+    (hg : (hasFiles fasta || hasFiles mapFiles) = false) :
+    pepMaps fasta mapFiles cd gl uu dig u = .error C18.Err.missingFasta.tag := by
+  unfold pepMaps
+  rw [hd]
+  simp only
+  match fasta, mapFiles, hg with
+  | some (f :: fs), _, hg => simp [hasFiles] at hg
+  | none, some (t :: ts), hg => simp [hasFiles] at hg
+  | some [], some (t :: ts), hg => simp [hasFiles] at hg
+  | none, none, _ => rfl
+  | none, some [], _ => rfl
+  | some [], none, _ => rfl
+  | some [], some [], _ => rfl
+
+/-! ### the run with ONE method given, spelled out -/
+
+/-- set-up of a run whose `--methods` names one shipped method: the annotations, the method's configuration under
+    the run's pseudo-gene decision and — only if the method needs one — the peptide → protein maps -/
+theorem setup_single (inp : CliInput) (name : String) (ann : C19.Dict) (u : Bool) (m : MethodToml) (cfg : C18.Cfg)
+    (hm : inp.methods = [name])
+    (ha : C19.getAnnotations inp.fasta inp.containsDecoys inp.geneLevel inp.useUniprot = .ok (ann, u))
+    (hf : C18.findMethod Generated.methods name = .ok m) (hp : C18.parseMethod u m = .ok cfg) :
+    setup inp =
+      if cfg.needsMap then
+        match pepMaps inp.fasta inp.pepMapFiles inp.containsDecoys inp.geneLevel inp.useUniprot inp.dig u with
+        | .error e => .error e
+        | .ok maps => .ok ({ ann := ann, usePseudo := u, maps := maps }, [cfg])
+      else .ok ({ ann := ann, usePseudo := u, maps := [] }, [cfg]) := by
+  have hps : C18.parseAll Generated.methods u (inp.methods.map C18.MethodRef.builtin) = .ok [cfg] := by
+    rw [hm]
+    exact parseAll_single Generated.methods u (.builtin name) m cfg hf hp
+  unfold setup
+  rw [ha]
+  simp only
+  rw [hps]
+  simp only [List.any_cons, List.any_nil, Bool.or_false]
+  rfl
+
+/-- the outcome of a run with one method given, in an environment `setup` produced: that method's outcome -/
+theorem cliOutcomes_single (inp : CliInput) (name : String) (env : Env) (cfg : C18.Cfg)
+    (hm : inp.methods = [name]) (hs : setup inp = .ok (env, [cfg])) :
+    cliOutcomes inp =
+      match runMethod inp env false name cfg (inp.recs.getD 0 default) with
+      | .error e => .error e
+      | .ok o => .ok [o] := by
+  have hitems : items inp [cfg] = [(name, cfg, inp.recs.getD 0 default)] := by
+    simp [items, hm, recsFor]
+  unfold cliOutcomes cliOutcome
+  rw [hs]
+  simp only
+  rw [hitems]
+  have hd : decide ([cfg].length > 1) = false := by simp
+  rw [hd]
+  cases hr : runMethod inp env false name cfg (inp.recs.getD 0 default) with
+  | error e => simp only [loop, hr]
+  | ok o => simp only [loop, hr]
+
+/-- a run whose set-up fails ends with that error -/
+theorem cliRun_setup_error (inp : CliInput) (e : String) (hs : setup inp = .error e) : cliRun inp = .error e := by
+  unfold cliRun cliOutcomes cliOutcome
+  rw [hs]
 
 /-! ### a run of the command line that completes (non-vacuity of the theorems of `Props/C18.lean`)
 
